@@ -19,6 +19,7 @@ structure DS where
   ckTab : Std.HashMap String Ck := {}            -- checkpoint token id → abstract checkpoint
   rootTab : Std.HashMap String Tree := {}        -- "n-roothex" → tree
   mirror : Std.HashMap String (String × Obj) := {} -- key string → (payload token, abstract object)
+  seen : Std.HashMap String Obj := {}            -- "key|payload token" → abstract object, for everything ever stored
   name : String := ""
   hcache : Option (Tree × Array ByteArray) := none
   dead : Bool := false
@@ -230,7 +231,11 @@ def handleEv (d : DS) (ws : List String) : Outp :=
     if tok == "gone" then
       tryStep { d with mirror := d.mirror.erase k } (.tamper key none) "tamper"
     else
-      let o : Obj := .blob tok.hash.toNat
+      -- an earlier content of the same key put back (an older signed checkpoint, a discarded bundle) is the abstract
+      -- object it was; anything else is an opaque blob
+      let o : Obj := match d.seen.get? (k ++ "|" ++ tok) with
+        | some o => o
+        | none => .blob tok.hash.toNat
       tryStep { d with mirror := d.mirror.insert k (tok, o) } (.tamper key (some o)) "tamper"
   | inst :: rest =>
     match inst.toNat? with
@@ -298,7 +303,8 @@ def handleEv (d : DS) (ws : List String) : Outp :=
                  let eo := expectedOpts key
                  if eo != "?" && eo != opts then .bad d s!"upload {k} with options {opts}, layout prescribes {eo}" else
                  let imm := opts.startsWith "i" || opts.startsWith "zi"
-                 let d' := if r.applied then { d with mirror := d.mirror.insert k (String.intercalate " " payload, o) } else d
+                 let ptok := String.intercalate " " payload
+                 let d' := if r.applied then { d with mirror := d.mirror.insert k (ptok, o), seen := d.seen.insert (k ++ "|" ++ ptok) o } else d
                  tryStep d' (.upload i key imm o r) s!"upload-{(k.splitOn "/").head!}-{res}"))
          | [] => .bad d "bad upload line")
       | ["discard", k, res] =>
